@@ -109,7 +109,52 @@ func ruleCkRep(pkgs ...string) func(p *Prog, r *Report) {
 					}
 					n++
 					key := fmt.Sprintf("%s:%s:alloc(%s)", rule, FnName(fn), named.Obj().Name())
-					if ret := validatedOnAllPaths(p, fn, al, b, i+1, ck, 0); ret != nil {
+					ret := validatedOnAllPaths(p, fn, al, b, i+1, ck, 0)
+					if ret != nil && len(ret.Results) == 1 && ret.Results[0] == al && !exported(fn) && returnsFresh(fn, 0) {
+						// a private helper that hands the new object to its callers:
+						// the obligation moves to every one of them
+						callers, bad := 0, ""
+						for _, cf := range p.Funcs {
+							for _, cb := range cf.Blocks {
+								for ci, cinstr := range cb.Instrs {
+									cc, ok := cinstr.(*ssa.Call)
+									if !ok || cc.Common().StaticCallee() != fn {
+										continue
+									}
+									callers++
+									n++
+									ckey := fmt.Sprintf("%s:%s:alloc(%s)", rule, FnName(cf), named.Obj().Name())
+									if cret := validatedOnAllPaths(p, cf, cc, cb, ci+1, ck, 0); cret != nil {
+										if bad == "" {
+											bad = fmt.Sprintf("%s (call at %s, return at %s)", FnName(cf), p.Pos(cc.Pos()), p.Pos(cret.Pos()))
+										}
+										r.bad(rule, ckey, p.Pos(cc.Pos()), fmt.Sprintf("a %s obtained from the helper %s reaches the return at %s without %s being called on it: the object leaves unvalidated",
+											named.Obj().Name(), FnName(fn), p.Pos(cret.Pos()), FnName(ck)))
+									} else {
+										r.ok(rule, ckey, p.Pos(cc.Pos()), fmt.Sprintf("every path from the call of the allocating helper %s to a return calls %s on the new object", FnName(fn), FnName(ck)))
+									}
+								}
+							}
+						}
+						addrTaken := false
+						if refs := fn.Referrers(); refs != nil {
+							for _, ref := range *refs {
+								if c, ok := ref.(*ssa.Call); !ok || c.Common().Value != fn {
+									addrTaken = true
+								}
+							}
+						}
+						switch {
+						case addrTaken:
+							r.bad(rule, key, p.Pos(al.Pos()), fmt.Sprintf("a %s allocated in %s is returned without %s being called on it, and %s is used as a function value: its callers cannot all be checked", named.Obj().Name(), FnName(fn), FnName(ck), FnName(fn)))
+						case bad != "":
+							r.bad(rule, key, p.Pos(al.Pos()), fmt.Sprintf("a %s allocated in the helper %s is returned unvalidated, and its caller %s lets it reach a return without calling %s on it", named.Obj().Name(), FnName(fn), bad, FnName(ck)))
+						default:
+							r.ok(rule, key, p.Pos(al.Pos()), fmt.Sprintf("the private helper returns the new object unvalidated; each of its %d call sites calls %s on the result on every path to a return", callers, FnName(ck)))
+						}
+						continue
+					}
+					if ret != nil {
 						r.bad(rule, key, p.Pos(al.Pos()), fmt.Sprintf("a %s allocated in %s reaches the return at %s without %s being called on it: the object leaves unvalidated",
 							named.Obj().Name(), FnName(fn), p.Pos(ret.Pos()), FnName(ck)))
 					} else {
